@@ -52,8 +52,22 @@ SWEEP_OPS = (
     [("phase_set", p) for p in ("0", "1", "2", "version", "pake", "9")] +
     [("cross_phase", j) for j in range(4)] +
     [("reflect", j) for j in range(4)] +
+    [("reflect_as", j, v) for j in range(3) for v in range(3)] +
+    [("relabel_replay", j, v) for j in range(3) for v in range(4)] +
     [("inject_body", p) for p in ("0", "1", "version")] +
     [("inject_pake", j) for j in range(3)])
+
+
+def side_variant(side, v):
+    return (side + "\u00e9", "\u0301" + side, "0badc0de", side.upper() + "\u200b",
+            side + " ")[v]
+
+
+def phase_variant(phase, v):
+    # Arabic-Indic digit one appended, Arabic-Indic zero prepended, fullwidth
+    # zero appended, accented letter appended, leading space, leading zero
+    return (phase + "\u0661", "\u0660" + phase, phase + "\uff10",
+            phase + "\u00e9", " " + phase, "0" + phase)[v]
 
 
 def sweep(tier):
@@ -149,6 +163,28 @@ def run_sweep_case(seed, tape, opts):
             out = [m, b"M" + json.dumps(
                 {"type": "message", "side": other_side(target),
                  "phase": x["phase"], "body": x["body"], "id": "r"}).encode()]
+        elif kind == "reflect_as":
+            # the client's own message under a side label that merely looks
+            # like / normalises to its own, or under a fresh one
+            own = [x for x in stored if x["side"] == target.side]
+            if op[1] >= len(own):
+                return m
+            x = own[op[1]]
+            out = [m, b"M" + json.dumps(
+                {"type": "message", "side": side_variant(target.side, op[2]),
+                 "phase": x["phase"], "body": x["body"], "id": "r"}).encode()]
+        elif kind == "relabel_replay":
+            # a genuine peer body replayed under a phase label that is a
+            # different string but may parse / encode like the original
+            theirs = [x for x in stored if x["side"] == other_side(target)
+                      and x["phase"] != "pake"]
+            if op[1] >= len(theirs):
+                return m
+            x = theirs[op[1]]
+            out = [m, b"M" + json.dumps(
+                {"type": "message", "side": x["side"],
+                 "phase": phase_variant(x["phase"], op[2]),
+                 "body": x["body"], "id": "r"}).encode()]
         elif kind == "inject_body":
             out = [b"M" + json.dumps(
                 {"type": "message", "side": other_side(target),
@@ -310,8 +346,11 @@ def run_one(seed, tape, opts):
             m["phase"], m2["phase"] = m2["phase"], m["phase"]
             end.inflight[j] = b"M" + json.dumps(m2).encode()
         elif op == "phase_set":
-            m["phase"] = tape.pick(("0", "1", "2", "3", "version", "pake",
-                                    "dilate-0", "99"), "t_ph")
+            if tape.choose(3, "t_phv") == 0:
+                m["phase"] = phase_variant(m["phase"], tape.choose(6, "t_pv"))
+            else:
+                m["phase"] = tape.pick(("0", "1", "2", "3", "version", "pake",
+                                        "dilate-0", "99"), "t_ph")
         elif op == "side_to_peer":
             m["side"] = other_side(c)
         elif op == "side_to_own":
@@ -343,13 +382,21 @@ def run_one(seed, tape, opts):
                            "ipk")
             m = {"type": "message", "side": other_side(c), "phase": "pake",
                  "body": pk.hex(), "id": "fab2"}
+        elif tape.choose(3, "r_kind") == 0 and any(
+                x["side"] != c.side and x["phase"] != "pake"
+                for x in stash[c.name]):
+            src = tape.pick([x for x in stash[c.name] if x["side"] != c.side
+                             and x["phase"] != "pake"], "rr_src")
+            m = dict(src)
+            m["phase"] = phase_variant(src["phase"], tape.choose(6, "rr_v"))
         else:
             own = [x for x in stash[c.name] if x["side"] == c.side]
             if not own:
                 return
             src = tape.pick(own, "r_src")
             m = dict(src)
-            m["side"] = other_side(c)
+            m["side"] = other_side(c) if tape.choose(3, "r_sv") else \
+                side_variant(c.side, tape.choose(5, "r_sv2"))
         end.inflight.insert(tape.choose(len(end.inflight) + 1, "ipos"),
                             b"M" + json.dumps(m).encode())
         _note(c, kind, None, m)
